@@ -136,18 +136,32 @@ def run(chk):
     bounds = {}
     signs = None
     fmt_ok = False
+    # the guards stand in the constructor or in a module-level helper that the constructor hands the offset to
+    guard_srcs = [(tm, 'offset')]
     for n in own_nodes(tm.node):
-        if isinstance(n, ast.Compare) and norm(n.left) == 'len(offset)' and isinstance(n.ops[0], ast.NotEq):
+        if isinstance(n, ast.Call) and isinstance(n.func, ast.Name) and n.func.id in tm.module.functions and \
+                tm.module.functions[n.func.id].cls is None:
+            callee = tm.module.functions[n.func.id]
+            ps = [a.arg for a in callee.node.args.args]
+            for i, a in enumerate(n.args):
+                if norm(a) == 'offset' and i < len(ps):
+                    guard_srcs.append((callee, ps[i]))
+            for k in n.keywords:
+                if norm(k.value) == 'offset' and k.arg in ps:
+                    guard_srcs.append((callee, k.arg))
+    for gfi, ov in guard_srcs:
+      for n in own_nodes(gfi.node):
+        if isinstance(n, ast.Compare) and norm(n.left) == 'len(%s)' % ov and isinstance(n.ops[0], ast.NotEq):
             want_len = n.comparators[0].value
         if isinstance(n, ast.BoolOp) and isinstance(n.op, ast.And) and len(n.values) == 2:
             a, b = n.values
-            if isinstance(a, ast.Compare) and norm(a.left) == 'offset[0]' and isinstance(a.comparators[0], ast.Constant) and \
+            if isinstance(a, ast.Compare) and norm(a.left) == '%s[0]' % ov and isinstance(a.comparators[0], ast.Constant) and \
                     isinstance(b, ast.Compare) and norm(b.left) == 'd.hour' and isinstance(b.ops[0], ast.Gt):
                 bounds[a.comparators[0].value] = b.comparators[0].value
-        if isinstance(n, ast.Compare) and norm(n.left) == 'offset[0]' and isinstance(n.ops[0], ast.NotIn):
+        if isinstance(n, ast.Compare) and norm(n.left) == '%s[0]' % ov and isinstance(n.ops[0], ast.NotIn):
             signs = {e.value for e in n.comparators[0].elts}
         if isinstance(n, ast.Call) and norm(n.func) == 'datetime.strptime' and len(n.args) == 2 and \
-                norm(n.args[0]) == 'offset[1:]' and isinstance(n.args[1], ast.Constant) and n.args[1].value == '%H%M':
+                norm(n.args[0]) == '%s[1:]' % ov and isinstance(n.args[1], ast.Constant) and n.args[1].value == '%H%M':
             fmt_ok = True
     if want_len is None or not bounds or signs is None or not fmt_ok:
         raise AnalysisError('TM.__init__: offset guards not recognised (len %s, bounds %s, signs %s, strptime %s)' % (
@@ -202,6 +216,26 @@ def run(chk):
     from .. import pathcond
     from ..cfg import cfg_of as _cfg
     g_ts = _cfg(gtf)
+    if sub is None or default is None:
+        # the same by meaning: the second item of what each path returns (temporaries substituted)
+        try:
+            subs_, defaults_ = set(), set()
+            for _conds, rv in pathcond.returns_on_paths(g_ts):
+                if isinstance(rv, ast.Tuple) and len(rv.elts) == 2:
+                    pv = rv.elts[1]
+                    if isinstance(pv, ast.Constant) and isinstance(pv.value, int):
+                        defaults_.add(pv.value)
+                    elif isinstance(pv, ast.BinOp) and isinstance(pv.op, ast.Sub) and len_of_value(pv.left) == 0 and \
+                            isinstance(pv.right, ast.Constant):
+                        subs_.add(pv.right.value)
+                    elif len_of_value(pv) is not None:
+                        subs_.add(len_of_value(pv))
+                    else:
+                        subs_.add(None)
+            if len(subs_) == 1 and None not in subs_ and len(defaults_) == 1:
+                sub, default = subs_.pop(), defaults_.pop()
+        except pathcond.Unknown:
+            pass
     fsel = [n for n in own_nodes(gtf.node) if isinstance(n, (ast.Assign, ast.Return)) and n.value is not None and
             any(isinstance(x, ast.Constant) and isinstance(x.value, str) and '%f' in x.value for x in ast.walk(n.value))]
     if not fsel:
@@ -292,7 +326,23 @@ def run(chk):
             fmtcat = True
     empty_ok = any(isinstance(n, ast.Assign) and isinstance(n.value, ast.Tuple) and len(n.value.elts) == 2 and
                    isinstance(n.value.elts[0], ast.Constant) and n.value.elts[0].value == '' for n in own_nodes(gdi.node))
-    if not ({'date_value[:8]', 'date_value[8:]'} <= slices and fmtcat):
+    # what the two format helpers are given: <text>[:8] and <text>[8:] of one and the same text
+    def arg_slice(fname):
+        out_ = set()
+        for n in own_nodes(gdi.node):
+            if isinstance(n, ast.Call) and norm(n.func) == fname and len(n.args) == 1:
+                a = n.args[0]
+                if isinstance(a, ast.Subscript) and isinstance(a.slice, ast.Slice) and a.slice.step is None:
+                    lo_ = a.slice.lower.value if isinstance(a.slice.lower, ast.Constant) else None if a.slice.lower is None else '?'
+                    hi_ = a.slice.upper.value if isinstance(a.slice.upper, ast.Constant) else None if a.slice.upper is None else '?'
+                    out_.add((norm(a.value), lo_, hi_))
+                else:
+                    out_.add((norm(a), '?', '?'))
+        return out_
+    dsl, tsl = arg_slice('_get_date_format'), arg_slice('_get_timestamp_format')
+    sliced_ok = len(dsl) == 1 and len(tsl) == 1 and list(dsl)[0][1:] == (None, 8) and list(tsl)[0][1:] == (8, None) and \
+        list(dsl)[0][0] == list(tsl)[0][0]
+    if not (sliced_ok and fmtcat):
         raise AnalysisError('get_datetime_info: the slicing date_value[:8] / date_value[8:] and the format concatenation were not '
                             'recognised; the DTM instance cannot be decided (the DT and TM instances stand)')
     cut = 8
